@@ -6,8 +6,17 @@ func getListEntrySortFunc(parent Entry) func(a, b Entry) int {
 		keys := parent.GetSchemaKeys()
 		var cmpResult int
 		for _, v := range keys {
-			aLvSlice := a.getChildren()[v].GetHighestPrecedence(LeafVariantSlice{}, false)
-			bLvSlice := b.getChildren()[v].GetHighestPrecedence(LeafVariantSlice{}, false)
+			aKey, aExists := a.getChildren()[v]
+			bKey, bExists := b.getChildren()[v]
+			// the key leafs are not necessarily part of the tree (e.g. state data only)
+			if !aExists || !bExists {
+				continue
+			}
+			aLvSlice := aKey.GetHighestPrecedence(LeafVariantSlice{}, false)
+			bLvSlice := bKey.GetHighestPrecedence(LeafVariantSlice{}, false)
+			if len(aLvSlice) == 0 || len(bLvSlice) == 0 {
+				continue
+			}
 
 			aEntry := aLvSlice[0]
 			bEntry := bLvSlice[0]
